@@ -11,7 +11,9 @@ COQ_BRANCHES = ("Durq.case_branches", "Durq.n_branches")
 SHARD = 100
 COQ_HEADER = []        # filled by _eq_table(): the value domain and the Python-equality table, once per case file
 RULE = ("histories of push / push(None) / extend|update / pull(emptive or not) / clear / count / remove / sync(force) and "
-        "REJECTED operations (extend|update|put of a batch with a non-RegDom member (str, int, dict, None) at a random "
+        "CALLER-OBJECT operations (the caller changes the value of a non-frozen object it handed in through push / extend|update / "
+        "the constructor, got from iteration or from pull, or pushes the same scratch object again after changing it: the "
+        "containers must be unaffected) and REJECTED operations (extend|update|put of a batch with a non-RegDom member (str, int, dict, None) at a random "
         "position after >= 0 valid members, push/remove/add of such a value; the caller catches the error and carries on) over "
         "up to 3 queues of one kind (keys 'q', 'qq', 'top.q') or, in half of the cases, Durqs AND Dusqs side by side in one "
         "Subery (two Holds), always with a queue and a set at the SAME key and often at prefix-related keys, a key may be used "
@@ -55,6 +57,48 @@ def _slots(case):
     if case["kind"] == "mixed":
         return [(("durq", "dusq")[i % 2], i // 2) for i in range(6)]
     return [(case["kind"], q) for q in range(3)]
+
+
+BAGS = [0, 1, 2, 5, 6]      # VALS indices of non-frozen Bag values a caller may set its object to
+
+
+def _is_bag(i):
+    return VALS[i][0] == "Bag"
+
+
+def _handed_by(o, n):
+    """(slot, VALS index) of every non-frozen caller object op o hands to a container, in order"""
+    name = o[0]
+    if name == "push":
+        return [(o[1], o[2])] if _is_bag(o[2]) else []
+    if name == "extend":
+        return [(o[1], i) for i in o[2] if _is_bag(i)]
+    if name in ("extendbad", "rawputbad"):
+        return [(o[1], i) for i in o[2] + o[3] if _is_bag(i)]
+    if name == "reinject":
+        return [(o[1], i) for i in o[2] if _is_bag(i)]
+    if name == "reopen":
+        return [(sl, i) for sl in range(n) for i in o[1].get(str(sl), []) if _is_bag(i)]
+    return []
+
+
+def _resolve(case):
+    """ops with the caller-object ops made explicit: ['pushsame', q, k] becomes the push of the CURRENT value of the
+    k-th object the caller handed to that queue earlier (or push(None) when there is none)."""
+    n = len(_slots(case))
+    pool = {q: [] for q in range(n)}
+    out = []
+    for o in case["ops"]:
+        if o[0] == "pushsame":
+            p = pool[o[1]]
+            out.append(["push", o[1], p[o[2] % len(p)]] if p else ["pushnone", o[1]])
+            continue
+        if o[0] == "mutate" and o[2] == "handed" and pool[o[1]]:
+            pool[o[1]][o[3] % len(pool[o[1]])] = o[4]
+        for q, i in _handed_by(o, n):
+            pool[q].append(i)
+        out.append(o)
+    return out
 
 
 def _mk(i):
@@ -103,6 +147,17 @@ def directed():
     out.append({"kind": "mixed", "via0": 12, "ops": [
         ["extend", 4, [0, 1, 2]], ["reopen", {}, 7], ["pull", 5, True], ["push", 5, 0], ["reopen", {}],
         ["pull", 5, True], ["pull", 4, True], ["remove", 5, 0], ["pull", 4, False]]})
+    # the caller reuses ONE scratch Bag: sets its value and pushes it again and again; changes objects it handed in through
+    # push / extend|update / the constructor, objects it got from iteration and from pull
+    for kind in ("durq", "dusq"):
+        out.append({"kind": kind, "ops": [
+            ["push", 0, 0], ["mutate", 0, "handed", 0, 1], ["pushsame", 0, 0], ["mutate", 0, "handed", 0, 6], ["pushsame", 0, 0],
+            ["pull", 0, True], ["mutate", 0, "pulled", 0, 5], ["mutate", 0, "iter", 1, 2], ["reopen", {}], ["pull", 0, True],
+            ["extend", 1, [0, 1]], ["mutate", 1, "handed", 1, 6], ["mutate", 1, "handed", 0, 6], ["pull", 1, True],
+            ["reopen", {"2": [2, 5]}, 12], ["mutate", 2, "handed", 0, 0], ["mutate", 2, "iter", 0, 1], ["pull", 2, False],
+            ["reinject", 1, [1, 2], 5], ["mutate", 1, "handed", 2, 0], ["pull", 1, True], ["pull", 1, True]]})
+    out.append({"kind": "dusq", "ops": [["push", 0, 0], ["mutate", 0, "handed", 0, 1], ["remove", 0, 0], ["pushsame", 0, 0],
+                                        ["remove", 0, 1], ["reopen", {}], ["pull", 0, True]]})
     # D38 witness: values equal in Python, serialised differently
     out.append({"kind": "dusq", "ops": [["push", 0, 0], ["push", 0, 7], ["push", 0, 8]]})
     out.append({"kind": "dusq", "ops": [["push", 0, 0], ["remove", 0, 7]]})
@@ -124,6 +179,13 @@ def _gen(rng, kind, dom, n):
     for _ in range(n):
         q = rng.choice(active)
         kind = ("durq", "dusq")[q % 2] if ckind == "mixed" else ckind
+        if rng.random() < 0.16:      # the caller touches / reuses its own value objects
+            if rng.random() < 0.65:
+                ops.append(["mutate", q, rng.choice(["handed", "handed", "handed", "iter", "pulled"]), rng.choice([-1, -1, 0, 1, 2, 3]),
+                            rng.choice([i for i in BAGS if i in dom] or BAGS)])
+            else:
+                ops.append(["pushsame", q, rng.choice([-1, -1, 0, 1, 2])])
+            continue
         r = rng.random()
         if r < 0.28:
             ops.append(["push", q, rng.choice(dom)])
@@ -207,6 +269,15 @@ class _World:
         self.head = str(scratch_dir() / f"c23-{_N[0]}")
         self.sub = None
         self.qs = {}
+        self.handed = {sl: [] for sl in range(len(self.slots))}   # the caller's own non-frozen objects, per queue
+        self.pulled = {sl: [] for sl in range(len(self.slots))}
+
+    def hand(self, sl, i):
+        """a fresh caller object for value i that is about to be handed to queue sl"""
+        o = _mk(i)
+        if _is_bag(i):
+            self.handed[sl].append(o)
+        return o
 
     def open(self):
         from hio.base.during import Subery
@@ -218,17 +289,17 @@ class _World:
             self.holds[kind]._hold_subery = self.sub
         self.sdbs = {"durq": self.sub.drqs, "dusq": self.sub.dsqs}
 
-    def _new(self, kind, pre):
+    def _new(self, kind, pre, sl):
         from hio.base.hier import Durq, Dusq
         cls = Durq if kind == "durq" else Dusq
-        return cls([_mk(i) for i in pre]) if pre else cls()
+        return cls([self.hand(sl, i) for i in pre]) if pre else cls()
 
     def enter(self, kind, items, via):
         """items: list of (slot, pre), all of kind `kind`; they enter that kind's Hold through entry point
         VIA[via] (one call when the entry point takes several items).  Returns {slot: injected?}."""
         from hio.base.hier.holding import Hold
         name = VIA[via][0]
-        objs = [(KEYS[self.slots[sl][1]], self._new(kind, pre)) for sl, pre in items]
+        objs = [(KEYS[self.slots[sl][1]], self._new(kind, pre, sl)) for sl, pre in items]
         sub = ("_hold_subery", self.sub)
         hold = self.holds[kind]
         if name == "setitem":
@@ -354,15 +425,28 @@ def run_impl(case):
             isq = w.slots[q][0] == "durq"
             try:
                 if name == "push":
-                    r = _ret(obj.push(_mk(o[2])))
+                    r = _ret(obj.push(w.hand(q, o[2])))
+                elif name == "pushsame":     # the caller pushes one of its own earlier objects again, as it is now
+                    p = w.handed[q]
+                    r = _ret(obj.push(p[o[2] % len(p)] if p else None))
+                elif name == "mutate":       # the caller changes an object it handed in / iterated over / pulled
+                    how, k, new = o[2], o[3], o[4]
+                    pool = w.handed[q] if how == "handed" else list(obj) if how == "iter" else w.pulled[q]
+                    if pool:
+                        t = pool[k % len(pool)]
+                        if not t.__dataclass_params__.frozen:
+                            t.value = VALS[new][1]
+                    r = ["opt", None]
                 elif name == "pushnone":
                     r = _ret(obj.push(None))
                 elif name == "extend":
-                    vs = [_mk(i) for i in o[2]]
+                    vs = [w.hand(q, i) for i in o[2]]
                     r = _ret(obj.extend(vs) if isq else obj.update(vs))
                 elif name == "pull":
                     v = obj.pull(emptive=o[2])
                     r = ["opt", None] if v is None else ["opt", w.ser(q, v)]
+                    if v is not None:
+                        w.pulled[q].append(v)
                 elif name == "clear":
                     r = _ret(obj.clear())
                 elif name == "count":
@@ -372,7 +456,7 @@ def run_impl(case):
                 elif name == "sync":
                     r = _ret(obj.sync(force=o[2]))
                 elif name in ("extendbad", "rawputbad"):
-                    vs = [_mk(i) for i in o[2]] + [_bad(o[4])] + [_mk(i) for i in o[3]]
+                    vs = [w.hand(q, i) for i in o[2]] + [_bad(o[4])] + [w.hand(q, i) for i in o[3]]
                     if name == "rawputbad":
                         r = _ret(obj.put(vs))
                     else:
@@ -428,11 +512,13 @@ def _events(case):
     """model-level op list: (q, op) with reopen expanded to one Reopen per queue, preceded by the 3 initial injections."""
     n = len(_slots(case))
     ev = [(q, ["reopen1", []]) for q in range(n)]
-    for o in case["ops"]:
+    for o in _resolve(case):
         if o[0] == "reopen":
             ev += [(q, ["reopen1", o[1].get(str(q), [])]) for q in range(n)]
         elif o[0] == "reinject":
             ev.append((o[1], ["reopen1", o[2]]))
+        elif o[0] == "mutate":
+            ev.append((o[1], ["mutate"]))
         else:
             ev.append((o[1], [o[0]] + o[2:]))
     return ev
@@ -495,6 +581,9 @@ def oracle(case, obs):
                 want = ["ok", ["bool", False]]
         elif name == "sync":
             want = ["ok", ["bool", True]] if o[1] else ["ok", ["opt", None]]
+        elif name == "mutate":
+            # the caller changing its own object is not an operation on the container: nothing changes
+            want = ["ok", ["opt", None]]
         elif name in REJECTED:
             # a rejected operation raises and leaves cache and durable copy unchanged (and equal)
             want = ["exc", "HierErr"]
@@ -521,7 +610,11 @@ def classify(case, obs, why):
     isset = lambda sl: slots[int(sl)][0] == "dusq"
     eqt = obs.get("eq") or _eq_table()
     used = set()
-    for o in case["ops"]:
+    for o in _resolve(case):
+        if o[0] == "mutate":
+            if isset(o[1]) and o[2] == "handed":
+                used.add(o[4])
+            continue
         if o[0] == "reopen":
             for sl, v in o[1].items():
                 if isset(sl):
@@ -578,6 +671,8 @@ def _coq_ev(ser, q, o, via=0):
         t = f"(Durq.ExtendBad {_vals(ser, o[1])} {_vals(ser, o[2])})"
     elif name == "rawputbad":
         t = f"(Durq.RawPutBad {_vals(ser, o[1])} {_vals(ser, o[2])})"
+    elif name == "mutate":
+        t = "Durq.CallerMutates"
     elif name == "pushbad":
         t = "Durq.PushBad"
     elif name == "rawaddbad":
